@@ -265,3 +265,47 @@ def t_close_bank(world):
 _t_c02d = tasks
 def tasks(tier):
     return _t_c02d(tier) + [('close_bank', t_close_bank)]
+
+
+# ---------------------------------------------------------------- C02.c: the risk admin's purge of a deleveraged position removes the same shares from the position and from the bank
+def t_purge(world):
+    from specs.handlers import run_handler
+    from specs.C12 import find_accounts
+    def sum_sort(eng_, st, callee, a):
+        st.events.append(('call', callee, a, None, []))      # the sort only permutes whole slots (C16.b): the statements below are about the state handed to it
+        return StructV('()', 'unit', {}, lazy=False)
+    eng, f, args, res = run_handler(world, r'purge_delev_balance::lending_account_purge_delev_balance$', kernels=[], merge=False, max_paths=20000, summaries=[(r'::sort_balances$', sum_sort)])
+    ob = Ob('C02.c.purge', 'lending_account_purge_delev_balance: Ok => exactly one slot changes, it was the active slot of THIS bank, it ends empty; the bank\'s deposit total falls by exactly that slot\'s deposit shares; '
+            'the liability side only abandons dust (<= 0.0001 shares) and the bank\'s liability total is untouched; the lending position counter is decremented',
+            [f.name], 'handler mode with Balance::close / change_asset_shares inlined; 16 slots unrolled; every accepting path'); ob.paths = len(res)
+    BAL = STRUCTS['Balance']; MI = STRUCTS['MarginfiAccount']; li = MI.index('lending_account'); bi = STRUCTS['LendingAccount'].index('balances')
+    n_ok = 0
+    for r, okc in ok_paths(res):
+        if ob.witness(eng, r, [okc]) is False: continue
+        n_ok += 1
+        accts = {}
+        for root in r['roots']: accts.update(find_accounts(eng, root))
+        ma = [c for c, sv in accts.items() if 'MarginfiAccount' in sv.ty]; bk = [c for c, sv in accts.items() if re.sub(r'<.*', '', sv.ty).split('::')[-1] == 'Bank']
+        if len(ma) != 1 or len(bk) != 1: ob.fail(f'accounts {list(accts)}'); continue
+        A, B = ma[0], bk[0]
+        fin = lambda i, fld: ev(fget(eng, accts[A], 'MarginfiAccount', f'lending_account.balances.[{i}].{fld}'))
+        ini = lambda i, fld: fsym(A, 'MarginfiAccount', f'lending_account.balances.[{i}].{fld}')
+        d_ash = [fin(i, 'asset_shares') - ini(i, 'asset_shares') for i in range(16)]
+        tas0 = fsym(B, 'Bank', 'total_asset_shares'); tas1 = ev(fget(eng, accts[B], 'Bank', 'total_asset_shares'))
+        ob.prove(eng, r, [okc], tas1 - tas0 == z3.Sum(d_ash), 'Δ bank.total_asset_shares == Σ Δ position asset shares', role='purge-asset-delta')
+        ob.prove(eng, r, [okc], ev(fget(eng, accts[B], 'Bank', 'total_liability_shares')) == fsym(B, 'Bank', 'total_liability_shares'), 'bank liability total untouched', role='purge-liab-total')
+        bank_key = z3.Int(B.replace('.acct', '.key'))
+        changed = [z3.Or([fin(i, fl) != ini(i, fl) for fl in ('active', 'asset_shares', 'liability_shares', 'bank_pk')]) for i in range(16)]
+        ob.prove(eng, r, [okc], z3.And([z3.Implies(changed[i], z3.And(ini(i, 'active') != 0, ini(i, 'bank_pk') == bank_key, fin(i, 'active') == 0, fin(i, 'asset_shares') == 0, fin(i, 'liability_shares') == 0,
+                                                                    ini(i, 'liability_shares') <= ZAT, ini(i, 'liability_shares') >= -ZAT)) for i in range(16)]),
+                 'a changed slot was the active slot of this bank, owed at most dust, and ends empty', role='purge-slot')
+        ob.prove(eng, r, [okc], z3.And([z3.Implies(z3.And(changed[i], changed[j]), z3.BoolVal(False)) for i in range(16) for j in range(i + 1, 16)]), 'at most one slot changes', role='purge-one-slot')
+        ob.prove(eng, r, [okc], ev(fget(eng, accts[B], 'Bank', 'lending_position_count')) <= fsym(B, 'Bank', 'lending_position_count'), 'lending position counter does not grow', role='purge-counter')
+    ob.notes.append(f'{n_ok} accepting paths')
+    ob.need_witness()
+    return [ob]
+
+
+_t_c02c = tasks
+def tasks(tier):
+    return _t_c02c(tier) + [('purge', t_purge)]
